@@ -92,6 +92,8 @@ class ExportSim:
                 ops[-1]['preexisting'] = rng.choice(['longer', 'longer', 'shorter'])
             if target == 'cli' and rng.random() < 0.4:
                 ops[-1]['tmpdir_other_fs'] = True
+            if rng.random() < 0.2:
+                ops[-1]['logging_debug'] = True       # the exporting process runs with verbose logging (`-vv`, level DEBUG)
             if faults:
                 ops.append({'op': 'export', 'fmt': fmt, 'target': target, 'retry': True,
                             'name': name if rng.random() < 0.6 else f'retry{k}', 'faults': [], 'end': 'exit'})
@@ -120,6 +122,11 @@ class ExportSim:
                 op.pop('earlier', None)
             yield p
         yield from common.ddmin_ops(plan)
+        for k, op in enumerate(plan['ops']):
+            if op.get('logging_debug'):
+                p = copy.deepcopy(plan)
+                p['ops'][k].pop('logging_debug')
+                yield p
         for k, op in enumerate(plan['ops']):
             if op['target'] not in ('str',):
                 p = copy.deepcopy(plan)
@@ -298,6 +305,8 @@ def _export_lifetime(ctx, world_spec, step, scratch, earlier_spec=None):
             except OSError:
                 pass
     ctx.full_flush = True
+    if step.get('logging_debug'):
+        seams.apply_process_env({'logging_debug': True}, ctx, scratch)
     ctl = seams.FaultController(ctx)
     seams.install_fopen_seam(ctl, geometry)
     faulty_open = geometry.open
